@@ -9,7 +9,7 @@ import sys
 import time
 import traceback
 
-from . import repo
+from . import bigframe, repo
 
 VERIF = os.path.dirname(os.path.dirname(os.path.abspath(__file__)))
 NPROC = int(os.environ.get("VERIF_NPROC", "16"))
@@ -88,7 +88,7 @@ class Part:
 def _call(args):
     fn, task = args
     try:
-        return ("ok", fn(task))
+        return ("ok", bigframe.call(fn, task))
     except HarnessError as ex:
         return ("harness", f"{ex}")
     except BaseException as ex:  # noqa
@@ -102,6 +102,7 @@ def pmap(fn, tasks, nproc=None, chunksize=1):
     if not tasks:
         return []
     nproc = min(nproc or NPROC, len(tasks))
+    bigframe.prepare()
     if nproc <= 1 or os.environ.get("VERIF_SERIAL"):
         res = [_call((fn, t)) for t in tasks]
     else:
